@@ -251,7 +251,13 @@ func (fc *FnCtx) builtinCopy(st *State, call *ast.CallExpr) []Val {
 	} else {
 		srcLen = app("s-len", src.T)
 		sa := app("select", E, app("s-arr", src.T))
-		srcAt = func(i string) string { return app("select", sa, fc.addIdx(app("s-off", src.T), i)) }
+		srcAt = func(i string) string {
+			if fc.cs != nil && fc.cs.IndexElt {
+				// the source read in view form, so that quantified facts about the source's elements (patterns over elt) fire
+				return app(fc.eltFn(dt.Elem()), sa, app("s-off", src.T), i)
+			}
+			return app("select", sa, fc.addIdx(app("s-off", src.T), i))
+		}
 	}
 	n := fc.define("copyn", I, ite(fc.ltIdx(app("s-len", dst.T), srcLen), app("s-len", dst.T), srcLen))
 	fc.checkFrameRange(st, dst, n, call.Pos())
@@ -284,6 +290,9 @@ func (fc *FnCtx) builtinAppend(st *State, call *ast.CallExpr) []Val {
 		} else {
 			addN = app("s-len", x.T)
 			addAt = func(E, i string) string {
+				if fc.cs != nil && fc.cs.IndexElt {
+					return app(fc.eltFn(stt.Elem()), app("select", E, app("s-arr", x.T)), app("s-off", x.T), i)
+				}
 				return app("select", app("select", E, app("s-arr", x.T)), fc.addIdx(app("s-off", x.T), i))
 			}
 		}
@@ -321,6 +330,9 @@ func (fc *FnCtx) builtinAppend(st *State, call *ast.CallExpr) []Val {
 	inOld := and(fc.leIdx(fc.idxLit(0), rel), fc.ltIdx(rel, ln))
 	inNew := and(fc.leIdx(ln, rel), fc.ltIdx(rel, newLen))
 	oldAt := app("select", oldInner, fc.addIdx(app("s-off", s.T), rel))
+	if fc.cs != nil && fc.cs.IndexElt {
+		oldAt = app(fc.eltFn(stt.Elem()), oldInner, app("s-off", s.T), rel)
+	}
 	keep := ite(fits, app("select", oldInner, j), fc.zero(stt.Elem()).T)
 	body := ite(inOld, oldAt, ite(inNew, addAt(E, fc.subIdx(rel, ln)), keep))
 	fc.assume(st, fmt.Sprintf("(forall ((j %s)) (! (= (select %s j) %s) :pattern ((select %s j))))", I, newInner, body, newInner))
@@ -891,6 +903,9 @@ func (fc *FnCtx) applyContract(st *State, c *Contract, home *ContractSet, homePk
 		fc.pendingPanics = append(fc.pendingPanics, ps)
 	}
 	for _, e := range c.Ensures {
+		if isLocalClause(e) {
+			continue // `#label(@local)`: a clause about the function's own locals, proved at its exits, not part of what callers see
+		}
 		fc.assume(st, post.evalBool(e.E))
 	}
 	return results
@@ -1342,4 +1357,13 @@ func (fc *FnCtx) bytesToString(st *State, v Val, to types.Type) Val {
 	key, srt := fc.elemsKey(tUint8)
 	a := app("select", fc.heapGet(st, key, srt), app("s-arr", v.T))
 	return Val{T: app("gs.ofbytes", a, app("s-off", v.T), app("s-len", v.T)), Ty: to}
+}
+
+func isLocalClause(c *Clause) bool {
+	for _, n := range c.Needs {
+		if n == "@local" {
+			return true
+		}
+	}
+	return false
 }
